@@ -15,8 +15,14 @@ Clause → theorem
   nquad's j-th argument lands in the model position it is meant for               reorder_places_label,
       (cdf, marginal_pdf, marginal_cdf orders)                                    marginalOrder_perm, identity_order
   marginal_cdf integrates the requested variable over (0, x), the others (0, ∞)  marginal_cdf_range_placement
-  "cdf equals the integral", "marginals agree within quadrature / MC error"      PARTIAL: nquad and Monte-Carlo are
-      runtime behaviour; validated by the harness (quadrature of pdf ≈ 1, ≈ cdf; DKW for marginal_icdf)
+  integrates to one (real densities on (0,∞), iterated integrals as nquad does)    mass_one_iterated
+  cdf = ∫ marginal density × conditional cdf (the inner nquad level factorises)   cdf_iterated_factor
+  the same for marginal_cdf of the conditional variable                           marginal_cdf_iterated_factor
+  marginal_cdf = ∫ marginal_pdf (integration orders of the two methods commute)   marginal_cdf_eq_integral_marginal_pdf
+  cdf is non-negative                                                             cdf_iterated_nonneg
+  "marginals agree within quadrature / MC error"                                  PARTIAL: nquad's numerical error and
+      Monte-Carlo error are runtime behaviour; validated by the harness (quadrature of pdf ≈ 1, ≈ cdf; DKW for
+      marginal_icdf)
 -/
 import VirVerif.Lemmas.Hier
 import VirVerif.Model.Joint
@@ -27,6 +33,9 @@ import Mathlib.Data.List.Basic
 import Mathlib.Data.List.Nodup
 import Mathlib.Data.List.Perm.Basic
 import Mathlib.Tactic.Linarith
+import Mathlib.MeasureTheory.Integral.Prod
+import Mathlib.MeasureTheory.Integral.IntervalIntegral.Basic
+import Mathlib.Analysis.SpecialFunctions.ImproperIntegrals
 
 namespace VirVerif.C06
 open VirVerif
@@ -208,6 +217,55 @@ theorem marginal_cdf_range_placement {β : Type} (n dim : Nat) (hd : dim < n) (x
   rw [hget] at this
   rw [this]
   simp [marginalCdfRanges]
+
+/-! ### the integrals themselves (real densities; `scipy.integrate.nquad` computes iterated integrals,
+first argument innermost, over the ranges `(0, x)` / `(0, ∞)` modelled above) -/
+section analytic
+open MeasureTheory Set
+
+/-- iterated integral over `(0,∞)ⁿ` of a hierarchical product of kernels: the density `w pre ·` of the next
+variable may depend on everything integrated outside it (which covers conditioning on any earlier variable). -/
+noncomputable def totalMassR (w : List ℝ → ℝ → ℝ) : Nat → List ℝ → ℝ
+  | 0, _ => 1
+  | n + 1, pre => ∫ x in Ioi (0 : ℝ), w pre x * totalMassR w n (pre ++ [x])
+
+/-- **integrates to one**: if every (conditional) density integrates to one over `(0,∞)` for every value of
+its conditioning variables, so does the joint density of any number of dimensions. -/
+theorem mass_one_iterated (w : List ℝ → ℝ → ℝ) (hnorm : ∀ pre, ∫ x in Ioi (0 : ℝ), w pre x = 1)
+    (n : Nat) (pre : List ℝ) : totalMassR w n pre = 1 := by
+  induction n generalizing pre with
+  | zero => rfl
+  | succ n ih => simp only [totalMassR, ih, mul_one, hnorm]
+
+/-- the hypothesis is satisfiable: the unit exponential density -/
+example : ∀ pre : List ℝ, ∫ x in Ioi (0 : ℝ), (fun (_ : List ℝ) x => Real.exp (-x)) pre x = 1 :=
+  fun _ => integral_exp_neg_Ioi_zero
+
+/-- **joint cdf** of a 2-D model, as computed (iterated integral of the joint pdf over `(0,a] × (0,b]`):
+the inner level is the conditional cdf mass `∫₀ᵇ f₁(s | t) ds`, weighted by the marginal density. -/
+theorem cdf_iterated_factor (f0 : ℝ → ℝ) (f1 : ℝ → ℝ → ℝ) (a b : ℝ) :
+    ∫ t in Ioc 0 a, ∫ s in Ioc 0 b, f0 t * f1 t s = ∫ t in Ioc 0 a, f0 t * ∫ s in Ioc 0 b, f1 t s := by
+  simp only [integral_const_mul]
+
+/-- `marginal_cdf(x, dim)` of the conditional variable: the conditioning variable runs over `(0,∞)`. -/
+theorem marginal_cdf_iterated_factor (f0 : ℝ → ℝ) (f1 : ℝ → ℝ → ℝ) (b : ℝ) :
+    ∫ t in Ioi 0, ∫ s in Ioc 0 b, f0 t * f1 t s = ∫ t in Ioi 0, f0 t * ∫ s in Ioc 0 b, f1 t s := by
+  simp only [integral_const_mul]
+
+/-- **marginal_cdf agrees with marginal_pdf**: `marginal_cdf(b)` integrates the requested variable innermost
+and `marginal_pdf(s) = ∫ f₀(t) f₁(s|t) dt`; for an integrable joint density the two orders give the same number. -/
+theorem marginal_cdf_eq_integral_marginal_pdf (f0 : ℝ → ℝ) (f1 : ℝ → ℝ → ℝ) (b : ℝ)
+    (hint : Integrable (Function.uncurry fun t s => f0 t * f1 t s)
+      ((volume.restrict (Ioi (0 : ℝ))).prod (volume.restrict (Ioc 0 b)))) :
+    ∫ t in Ioi 0, ∫ s in Ioc 0 b, f0 t * f1 t s = ∫ s in Ioc 0 b, ∫ t in Ioi 0, f0 t * f1 t s :=
+  integral_integral_swap hint
+
+/-- the joint cdf of non-negative densities is non-negative -/
+theorem cdf_iterated_nonneg (f0 : ℝ → ℝ) (f1 : ℝ → ℝ → ℝ) (a b : ℝ) (h0 : ∀ t, 0 ≤ f0 t)
+    (h1 : ∀ t s, 0 ≤ f1 t s) : 0 ≤ ∫ t in Ioc 0 a, ∫ s in Ioc 0 b, f0 t * f1 t s :=
+  integral_nonneg fun t => integral_nonneg fun s => mul_nonneg (h0 t) (h1 t s)
+
+end analytic
 
 /-! ### non-vacuity -/
 example : marginalOrder 3 1 = [2, 0, 1] := by decide
